@@ -23,6 +23,11 @@ pub struct RunResult {
 
 /// Runs a program against the model; shared by C04 and C05. `prefix` is the signature prefix.
 pub fn run_program(p: &Program, t: &mut Tape, st: &mut Stats, prefix: &str, nt_rule: fn(&Model, &std::collections::HashSet<&'static str>) -> bool) -> Verdict {
+    run_program_bounded(p, t, st, prefix, nt_rule, 3000)
+}
+
+/// `max_steps`: statements the reference interpreter may execute before the case is discarded
+pub fn run_program_bounded(p: &Program, t: &mut Tape, st: &mut Stats, prefix: &str, nt_rule: fn(&Model, &std::collections::HashSet<&'static str>) -> bool, max_steps: usize) -> Verdict {
     ensure_spellings();
     let (_, mut classes) = shape(p);
     let rendered = render(p, t, false);
@@ -35,7 +40,7 @@ pub fn run_program(p: &Program, t: &mut Tape, st: &mut Stats, prefix: &str, nt_r
     if rendered.rs.specific_end && rendered.rs.generic_end {
         classes.insert("mixed-generic-and-specific-end");
     }
-    let mut m = Model::new(p, 3000);
+    let mut m = Model::new(p, max_steps);
     match m.run() {
         Ok(()) => {}
         Err(Stop::Steps) => return Verdict::Discard("model step bound exceeded"),
@@ -56,7 +61,7 @@ pub fn run_program(p: &Program, t: &mut Tape, st: &mut Stats, prefix: &str, nt_r
     hz_reset();
     // fuel proportional to the work the reference interpreter needed (generous factor: every statement costs at
     // most a handful of instruction executions incl. blank lines, end/else lines and nested evaluation)
-    let fuel = (30 * m.steps as u64 + 2_000).min(60_000);
+    let fuel = (30 * m.steps as u64 + 2_000).min(60_000.max(12 * max_steps as u64));
     let out = run_text(&rendered.text, sdk_context(), fuel, None);
     // handles are opaque tokens: map them to the model's array names
     let names: HashMap<String, String> = with_hz(|h| {
@@ -123,19 +128,25 @@ fn nt_c04(_m: &Model, classes: &std::collections::HashSet<&'static str>) -> bool
 }
 
 fn case_small(t: &mut Tape, st: &mut Stats) -> Verdict {
-    let p = gen_program(t, GenCfg { functions: false, failures: false, max_depth: 5, max_stmts: 30 });
+    let p = gen_program(t, GenCfg { functions: false, failures: false, max_depth: 5, max_stmts: 30, long_loops: false });
     run_program(&p, t, st, "C04", nt_c04)
 }
 
 fn case_large(t: &mut Tape, st: &mut Stats) -> Verdict {
-    let p = gen_program(t, GenCfg { functions: false, failures: false, max_depth: 8, max_stmts: 120 });
+    let p = gen_program(t, GenCfg { functions: false, failures: false, max_depth: 8, max_stmts: 120, long_loops: false });
     run_program(&p, t, st, "C04", nt_c04)
+}
+
+/// small programs whose while loops run for tens to hundreds of iterations, also inside other loops
+fn case_long_loops(t: &mut Tape, st: &mut Stats) -> Verdict {
+    let p = gen_program(t, GenCfg { functions: false, failures: false, max_depth: 4, max_stmts: 10, long_loops: true });
+    run_program_bounded(&p, t, st, "C04", |m, _| m.classes.contains("while-ran-100-times"), 12_000)
 }
 
 pub fn property() -> Property {
     Property {
         id: "C04",
-        rule: "well-nested programs (AST of emit / set / if-elseif-else / while / for-in, depth <= 5 quick / 8 thorough, empty bodies, zero-iteration loops, loops re-entered many times) rendered with a random alias or the canonical name for every keyword occurrence (generic 'end' or block-specific end), random indentation, blank and comment lines; conditions as values, boolean expressions, commands (tick) and negated commands (not tock); emit trace (ids and argument values) and final variables compared with a tree-walking interpreter. Non-trivial: >= 2 block kinds nested and some block executed >= 2 times; distinct by script text",
+        rule: "well-nested programs (AST of emit / set / if-elseif-else / while / for-in, depth <= 5 quick / 8 thorough, empty bodies, zero-iteration loops, loops re-entered many times, and - section long-loops - while loops of 20..250 iterations, also nested in other loops) rendered with a random alias or the canonical name for every keyword occurrence (generic 'end' or block-specific end), random indentation, blank and comment lines; conditions as values, boolean expressions, commands (tick) and negated commands (not tock); emit trace (ids and argument values) and final variables compared with a tree-walking interpreter. Non-trivial: >= 2 block kinds nested and some block executed >= 2 times; distinct by script text",
         assumptions: &[
             "only well-nested programs; no goto into or out of blocks; arrays are not mutated during iteration; values are plain words that are not command names",
             "while loops are driven by deterministic tick/tock automata shared (as an algorithm) with the reference interpreter",
@@ -158,6 +169,15 @@ pub fn property() -> Property {
                 },
                 case: case_large,
                 min_classes: &[("depth-4-or-more", 200)],
+            },
+            Section {
+                name: "long-loops",
+                plan: |t| match t {
+                    Tier::Quick => Plan::Random { cases: 6_000, max_len: 400 },
+                    Tier::Thorough => Plan::Random { cases: 300_000, max_len: 500 },
+                },
+                case: case_long_loops,
+                min_classes: &[("while-ran-100-times", 300), ("while-ran-100-times-inside-a-loop-iteration", 60)],
             },
         ],
         probes: vec![],
